@@ -288,7 +288,8 @@ def check(recipe, mode):
         if robb.all() and not np.array_equal(covb, np.bincount(refb.reshape(-1), minlength=12 * nside ** 2)):
             raise Violation('coverage-value', 'coverage of a broadcast sampling differs from the histogram')
         classes.append('coverage_broadcast')
-    if recipe['coverage']:
+    if recipe['coverage'] and nside <= 1024:
+        # (a coverage map at nside 4096 has 2e8 pixels: with 16 workers that alone exhausts the memory of this machine)
         rep = recipe['rep']
         th, ph = np.tile(theta, rep), np.tile(phi, rep)
         if recipe.get('long_total'):
